@@ -26,6 +26,112 @@ fn run<T: Flt>(rep: &Report, cli: &Cli) {
     run_decimal_families::<T>(rep, cli, &sub, &g, &p, "C01");
 }
 
+/// ALL32 (thorough, --all32): every positive finite f32 bit pattern b gives
+///  SH  - the shortest decimal that identifies b (Rust's `{:e}`; lexical must return b),
+///  MID - the exact decimal expansion of the midpoint between b and its successor (ties to even:
+///        b if b is even, else b + 1; the successor of the largest finite float is infinity),
+///  MID+/MID- (every 8th b) - the midpoint with a final digit added that moves it strictly
+///        inside the upper / lower half interval,
+/// each in exponent spelling (every 16th b also positional). Expected bits are closed-form; a
+/// mismatch is re-judged through the exact-arithmetic checker, which files the violation.
+fn all32(rep: &Report, cli: &Cli) {
+    use vkit::big::Big;
+    use vkit::par::par_chunks;
+    let sub = Subject::<f32> {
+        name: "std",
+        parse: |b| lexical_core::parse::<f32>(b),
+        parse_partial: |b| lexical_core::parse_partial::<f32>(b),
+        lossy: false,
+    };
+    let spell = Spell { radix: 10, base: 10, exp_radix: 10, exp_char: b'e' };
+    let pow5: Vec<Big> = (0..=151u64).map(|k| Big::pow(5, k)).collect();
+    let last = 0x7f7f_ffffu64;
+    par_chunks(last + 1, 1 << 16, cli.threads, |_, r| {
+        let mut fam = Fam::new(rep, "f32:std:ALL32");
+        let mut slow: Option<RoundChecker<f32>> = None;
+        let mut buf: Vec<u8> = Vec::with_capacity(256);
+        for b in r {
+            fam.states += 1;
+            fam.cases += 1;
+            let mut probe = |s: &[u8], expected: u64, fam: &mut Fam| {
+                fam.calls += 1;
+                fam.nontrivial += 1;
+                let ok = matches!(lexical_core::parse::<f32>(s), Ok(v) if v.to_bits() as u64 == expected);
+                if !ok {
+                    let c = slow.get_or_insert_with(|| RoundChecker::<f32>::new("C01", rep, &sub, &spell, "ALL32-judged"));
+                    c.check(s);
+                }
+            };
+            if b > 0 {
+                use std::io::Write;
+                buf.clear();
+                write!(&mut buf, "{:e}", f32::from_bits(b as u32)).unwrap();
+                probe(&buf, b, &mut fam);
+            }
+            // midpoint (2m+1) * 2^(e-1)
+            let field = b >> 23;
+            let (m, e) = if field == 0 { (b & 0x7f_ffff, -149i64) } else { ((b & 0x7f_ffff) | 0x80_0000, field as i64 - 150) };
+            let big_m = 2 * m + 1;
+            let sh = e - 1;
+            let tie = if b & 1 == 0 { b } else { b + 1 };
+            let variants = b % 8 == 0;
+            if sh >= 0 {
+                let n: u128 = (big_m as u128) << sh;
+                probe(n.to_string().as_bytes(), tie, &mut fam);
+                if variants {
+                    probe(format!("{}.1", n).as_bytes(), b + 1, &mut fam);
+                    probe(format!("{}.9", n - 1).as_bytes(), b, &mut fam);
+                }
+            } else {
+                let k = (-sh) as usize;
+                let mut d = pow5[k].clone();
+                d.mul_small(big_m);
+                let digits = d.to_digits(10);
+                buf.clear();
+                buf.extend_from_slice(&digits);
+                buf.extend_from_slice(format!("e-{}", k).as_bytes());
+                probe(&buf, tie, &mut fam);
+                if variants {
+                    // D ends in 5: D1 e-(k+1) is above, (D-1)9 e-(k+1) is below
+                    let mut up = digits.clone();
+                    up.push(b'1');
+                    up.extend_from_slice(format!("e-{}", k + 1).as_bytes());
+                    probe(&up, b + 1, &mut fam);
+                    let mut dn = digits.clone();
+                    let l = dn.len() - 1;
+                    debug_assert_eq!(dn[l], b'5');
+                    dn[l] = b'4';
+                    dn.push(b'9');
+                    dn.extend_from_slice(format!("e-{}", k + 1).as_bytes());
+                    probe(&dn, b, &mut fam);
+                }
+                if b % 16 == 0 {
+                    // positional spelling: 0.000ddd (k fraction digits)
+                    let mut pos = Vec::with_capacity(k + 4);
+                    if digits.len() > k {
+                        pos.extend_from_slice(&digits[..digits.len() - k]);
+                        pos.push(b'.');
+                        pos.extend_from_slice(&digits[digits.len() - k..]);
+                    } else {
+                        pos.extend_from_slice(b"0.");
+                        pos.extend(std::iter::repeat(b'0').take(k - digits.len()));
+                        pos.extend_from_slice(&digits);
+                    }
+                    probe(&pos, tie, &mut fam);
+                }
+            }
+            if b % (1 << 27) == 12345 && fam.want_sample() {
+                rep.sample(format!("f32:std:ALL32 bits {:#x}: shortest, midpoint to successor (+-)", b));
+            }
+        }
+        if let Some(c) = slow {
+            c.done();
+        }
+        fam.finish();
+    });
+    rep.note("ALL32: every positive finite f32 bit pattern (0..=0x7f7fffff): shortest decimal and exact midpoint to the successor; closed-form expected bits, mismatches re-judged by exact arithmetic".into());
+}
+
 fn main() {
     let cli = parse_cli();
     silence_panics();
@@ -51,6 +157,9 @@ fn main() {
         let mut j = Judge::new(10, 10);
         replay_case(&rep, key, &sub64, &sub32, &g, &mut j);
         finish(&rep, &cli);
+    }
+    if cli.tier == "thorough" && cli.extra.iter().any(|a| a == "--all32") {
+        all32(&rep, &cli);
     }
     run::<f64>(&rep, &cli);
     run::<f32>(&rep, &cli);
